@@ -41,7 +41,7 @@ fn first_component(expr: &str) -> &str {
 }
 
 /// Does finding `f` explain violation `v` of scenario `sc` completely?
-pub fn explains(f: &Finding, sc: &Scenario, v: &Violation) -> bool {
+pub fn explains(f: &Finding, sc: &Scenario, v: &Violation, root_text: &str) -> bool {
     if f.property != v.prop || f.clause != v.clause {
         return false;
     }
@@ -59,10 +59,59 @@ pub fn explains(f: &Finding, sc: &Scenario, v: &Violation) -> bool {
                 && !v.items.is_empty()
                 && v.items.iter().all(|i| i.starts_with("missing:"))
         },
+        // F6: a negation alternative that reports `is_exhaustive() == Always` although some
+        // matched directory has a descendant it does not match (`**/{a}`, `**/{a,bc}`,
+        // `**/<a:1,2>`): `not` prunes the directory and loses the descendant. An item is explained
+        // only by a direct witness of the unsound verdict: an alternative `t` that claims Always, a
+        // proper ancestor directory `D` of the lost entry `e` with `t` matching `D` but not `e`.
+        // On an implementation whose Always verdicts are sound no such witness exists.
+        "false-always-exhaustive" => {
+            use wax::Program;
+            let Some(Layer::Not(pf)) = w.layers.first()
+            else {
+                return false;
+            };
+            if w.layers.len() != 1 {
+                return false;
+            }
+            let space = crate::oracle::Space::of(w, root_text);
+            let texts = pf.texts();
+            let exhaustive: Vec<wax::Glob> = texts
+                .iter()
+                .filter_map(|t| wax::Glob::new(t).ok())
+                .filter(|g| matches!(g.is_exhaustive(), wax::query::When::Always))
+                .collect();
+            !v.items.is_empty()
+                && v.items.iter().all(|item| {
+                    let Some(e) = item.strip_prefix("missing:").or_else(|| item.strip_prefix("unfed:"))
+                    else {
+                        return false;
+                    };
+                    if !is_below(e, &space.start) && e != space.start {
+                        return false;
+                    }
+                    let re = space.rel(e);
+                    let mut d = e;
+                    while d != space.start && !d.is_empty() {
+                        d = parent(d);
+                        if !is_under(d, &space.start) {
+                            break;
+                        }
+                        let rd = space.rel(d);
+                        if exhaustive
+                            .iter()
+                            .any(|t| t.is_match(rd.as_str()) && !t.is_match(re.as_str()))
+                        {
+                            return true;
+                        }
+                    }
+                    false
+                })
+        },
         _ => false,
     }
 }
 
-pub fn explain<'a>(reg: &'a Registry, sc: &Scenario, v: &Violation) -> Option<&'a Finding> {
-    reg.findings.iter().find(|f| explains(f, sc, v))
+pub fn explain<'a>(reg: &'a Registry, sc: &Scenario, v: &Violation, root_text: &str) -> Option<&'a Finding> {
+    reg.findings.iter().find(|f| explains(f, sc, v, root_text))
 }
